@@ -112,6 +112,10 @@ fn parse_escaped_string<'a>(
                         encode_invalid_unicode(numbers, str_buf);
                         return Ok(data);
                     }
+                    // remember where the next escape starts, it is parsed again on its own
+                    // if it turns out not to be the low surrogate of a pair.
+                    let next_data = data;
+                    let next_idx = *idx;
                     if data[0] == b'\\' && data[1] == b'u' {
                         *idx += 2;
                         data = &data[2..];
@@ -138,8 +142,8 @@ fn parse_escaped_string<'a>(
                     let n2 = decode_hex_escape(lower_numbers.clone(), idx)?;
                     if !(0xDC00..=0xDFFF).contains(&n2) {
                         encode_invalid_unicode(numbers, str_buf);
-                        encode_invalid_unicode(lower_numbers, str_buf);
-                        return Ok(data);
+                        *idx = next_idx;
+                        return Ok(next_data);
                     }
 
                     let n = (((n1 - 0xD800) as u32) << 10 | (n2 - 0xDC00) as u32) + 0x1_0000;
